@@ -243,6 +243,8 @@ static RunResult run_once(const std::vector<Op> &hist, const Op *op, int K, std:
     apply(w, h);
     if (g_reloc == 2) relocate_all(w);
   }
+  vf::L().nfail = 0;  // failures of observational oracles on the prefix were reported when that transition was explored
+  vf::L().fail_total = 0;
   r.key_before = key_of(w);
   if (enabled) enumerate(w, o, *enabled);
   if (op) {
@@ -275,6 +277,25 @@ static std::string jesc(const std::string &s) {
   }
   return r;
 }
+
+/// A failed oracle stops the expansion of the successor state when model and code may have diverged (contents,
+/// lifetimes, crashes).  Failures of purely observational oracles (allocation counting, allocator protocol, capacity /
+/// address rules) are recorded but the successor is still explored: their consequences for other properties stay visible.
+static bool failure_is_fatal() {
+  for (int f = 0; f < vf::L().nfail; ++f) {
+    std::string t = vf::L().fails[f].tags;
+    size_t a = 0;
+    while (a <= t.size()) {
+      size_t b = t.find(',', a);
+      if (b == std::string::npos) b = t.size();
+      std::string tag = t.substr(a, b - a);
+      if (!(tag == "C05" || tag == "C06" || tag == "C07" || tag == "C18")) return true;
+      a = b + 1;
+    }
+  }
+  return vf::L().fail_total > vf::LedgerT::FAIL_CAP;
+}
+
 struct State {
   int parent;
   Op op;
@@ -305,6 +326,7 @@ int main(int argc, char **argv) {
     else if (s == "--few-ranges") o.ranges_all = false;
     else if (s == "--no-temps") o.temps = false;
     else if (s == "--no-ctors") o.ctors = false;
+    else if (s == "--hint-only") o.hint_only = true;
     else if (s == "--fault") fault_bound = std::atoi(nxt().c_str());
     else if (s == "--crumb") {
       std::string p = nxt();
@@ -406,7 +428,7 @@ int main(int argc, char **argv) {
     std::vector<Op> h = history((int)cur);
     crumb(h, nullptr);
     RunResult rp = run_once(h, nullptr, K, &enabled, o);
-    if (rp.key_before != keys[cur] || rp.nfail) {
+    if (rp.key_before != keys[cur]) {
       nondet = "canon-on-replay failed for state " + keys[cur] + " via " + hist_str(h) + " got " + rp.key_before;
       break;
     }
@@ -429,7 +451,7 @@ int main(int argc, char **argv) {
         for (char c : sig) norm += (c >= '0' && c <= '9') ? '#' : c;
         if (viol_sigs.emplace(norm, 1).second && viols.size() < 200)
           viols.push_back(VRec{vf::L().fails[0].tags, vf::L().fails[0].msg, hist_str(h), op_str(op), keys[cur]});
-        continue;
+        if (failure_is_fatal()) continue;
       }
       if (seen.find(r.key_after) == seen.end()) {
         seen.emplace(r.key_after, (int)states.size());
